@@ -79,6 +79,13 @@ def run(ctx):
                 call(ctx, vh, "close", dict(op="close", db=db, path=ws.abs(rel)))
             vh.call(op="drop_db", db=db)
             shutil.rmtree(root, ignore_errors=True)
+        # ---- more than MAX_FILE_CACHE_SIZE analysed files: the eviction path runs under the lock monitor -----------
+        db = vh.new_db()
+        bulk = [{"op": "analyze_fresh", "db": db, "path": f"/vf_c12/bulk/test_b{i}.py", "text": "def test_b():\n    pass\n"} for i in range(2100)]
+        call(ctx, vh, "bulk_analyze_2100", dict(op="batch", cmds=bulk), timeout=300)
+        call(ctx, vh, "queries_after_eviction", dict(op="available", db=db, path="/vf_c12/bulk/test_b1.py"))
+        vh.call(op="drop_db", db=db)
+        ctx.nontrivial(("eviction_path",))
         # ---- W2: cyclic inputs --------------------------------------------------------------------------
         vh = cyclic_inputs(ctx, vh, quick, log)
         vh.call(op="lockstats")
@@ -142,6 +149,18 @@ def call(ctx, vh, what, cmd, timeout=WATCHDOG):
 def during_scan(ctx, i, log):
     root = ctx.scratch(f"srv{i}")
     ws = gen.gen_workspace(root, ctx.rng, depth=ctx.rng.randint(2, 3), venv=(i % 2 == 0))
+    if i % 2 == 0:
+        # a conftest importing something that is not in the tree (resolution falls through to site-packages / editable
+        # roots), and a venv big enough for the plugin-scan phase to overlap with requests
+        for rel in list(ws.files):
+            if rel.endswith("conftest.py") and not rel.startswith(".venv"):
+                ws.files[rel] = "from not_installed_pkg.fixtures import *\n" + ws.files[rel]
+        sp = f".venv/lib/{gen.PYVER}/site-packages"
+        ws.files[f"{sp}/bigplug/__init__.py"] = ""
+        for k_ in range(150):
+            ws.files[f"{sp}/bigplug/m{k_}.py"] = "import pytest\n\n" + "".join(
+                f"@pytest.fixture\ndef bp_{k_}_{j}():\n    return 1\n\n" for j in range(3)) + ("@pytest.fixture\ndef fx_a():\n    return 1\n" if k_ % 10 == 0 else "")
+        ws.files[f"{sp}/bigplug-1.0.dist-info/entry_points.txt"] = "[pytest11]\nbig = bigplug\n"
     materialize(ws)
     model = ws.model()
     gate = ctx.scratch(f"gate{i}")
@@ -195,6 +214,23 @@ def during_scan(ctx, i, log):
                     srv.did_close(f)
             if ph == "during_scan":
                 open(os.path.join(gate, "go.0"), "w").close()
+                # keep asking while the rest of the scan (venv / plugin / import phases) runs
+                probe_files = [r for r in ws.workspace_py() if r.endswith("test_probe.py")]
+                t_end = time.time() + WATCHDOG
+                k_ = 0
+                while not any("Workspace scan complete" in l for l in srv.logs) and time.time() < t_end:
+                    pf = ws.abs(probe_files[k_ % len(probe_files)])
+                    um = model.models[pf].usages
+                    if um:
+                        u_ = um[k_ % len(um)]
+                        r_ = srv.definition(pf, u_["line"] - 1, u_["start_b"], timeout=WATCHDOG)
+                        ctx.judged()
+                        if not r_["answered"]:
+                            ctx.violation({"kind": "request-unanswered", "method": "textDocument/definition", "phase": "scan_tail"},
+                                          {"threads": threads_state(srv.p.pid)[:20], "stderr": srv.stderr_text()[-800:]}, files=None)
+                            return
+                    k_ += 1
+                ctx.count("requests_during_scan_tail", k_)
                 if not srv.wait_log("Workspace scan complete", timeout=WATCHDOG):
                     ctx.violation({"kind": "scan-did-not-complete"},
                                   {"threads": threads_state(srv.p.pid)[:20], "stderr": srv.stderr_text()[-800:]}, files=ws.files)
@@ -280,6 +316,9 @@ def cyclic_inputs(ctx, vh, quick, log):
         except VHDied as e:
             if e.returncode == 97:
                 ctx.violation({"kind": "self-deadlock-detected-by-lock-monitor", "input": cname}, {"stderr": e.stderr[-2000:]})
+            elif e.returncode is not None:
+                # the process died (stack overflow = unbounded recursion, abort): the operation did not terminate normally
+                ctx.violation({"kind": "process-died-on-cyclic-input", "input": cname, "status": e.returncode}, {"stderr": e.stderr[-1500:]})
             # restart the harness for the remaining cases
             vh = VH(vh_bin(), locklog=log, env={"VERIF_SHARDS": "2"})
         finally:
